@@ -83,6 +83,21 @@ export function* generate({ tier, seed }) {
       variants: [{ vid: 'v0', options }],
     };
   }
+  // the factory a pragma names may be a binding of the module itself (import, const, function): it must stay the callee's binding
+  const BOUND = {
+    importNamed: ['import { boundH } from "probe:pragma";', 'boundH', 'boundH'],
+    importAliased: ['import { h as boundH } from "probe:pragma";', 'boundH', 'pragma.h'],
+    constWrap: ['const boundH = (...a) => myH(...a);', 'boundH', 'myH'],
+    fnDecl: ['function boundH(...a) { return $h(...a); }', 'boundH', '$h'],
+    lateConst: ['var boundH = (...a) => _h(...a);', 'boundH', '_h'],
+  };
+  for (const [kind, [decl, name, factory]] of Object.entries(BOUND)) for (const style of STYLES) for (const placement of ['fileHead', 'beforeFirst', 'viaOption']) for (const optimize of [false, true]) {
+    const c = placement === 'viaOption' ? '// no annotation here' : comment(style, `@jsx ${name}`);
+    if (placement === 'viaOption' && style !== 'line') continue;
+    const src = moduleWith(placement === 'viaOption' ? 'fileHead' : placement, c).replace('import C0 from "probe:C0";', `import C0 from "probe:C0";\n${decl}`);
+    const options = placement === 'viaOption' ? { optimize, pragma: name } : { optimize };
+    yield { gid: `C15-${n++}`, src, syntax: 'jsx', spec: { expect: [factory] }, feature: `bound|${kind}|${placement}|${style}|${optimize}`, variants: [{ vid: 'v0', options }] };
+  }
   // two different annotations in one module: either may win
   for (const p1 of ['fileHead', 'beforeFirst']) for (const style of STYLES) for (const optPragma of [null, 'optH']) {
     const c1 = comment(style, '@jsx h'), c2 = comment(rng.pick(STYLES), '@jsx myH');
@@ -100,7 +115,7 @@ const ENV = {
     h: { v: { k: 'factory', id: 'h' }, log: false }, myH: { v: { k: 'factory', id: 'myH' }, log: false }, $h: { v: { k: 'factory', id: '$h' }, log: false },
     optH: { v: { k: 'factory', id: 'optH' }, log: false }, vue$h: { v: { k: 'factory', id: 'vue$h' }, log: false }, $$h: { v: { k: 'factory', id: '$$h' }, log: false }, 'cr\u00e9er': { v: { k: 'factory', id: 'cr\u00e9er' }, log: false }, h2_x: { v: { k: 'factory', id: 'h2_x' }, log: false }, _h: { v: { k: 'factory', id: '_h' }, log: false }, F: { v: { k: 'sent', id: 'F' }, log: false },
   },
-  modules: { 'probe:C0': { default: { k: 'comp', id: 'C0' } } },
+  modules: { 'probe:C0': { default: { k: 'comp', id: 'C0' } }, 'probe:pragma': { boundH: { k: 'factory', id: 'boundH' }, h: { k: 'factory', id: 'pragma.h' } } },
 };
 
 export async function check(group, records) {
